@@ -66,17 +66,20 @@ type Program struct {
 	effects  map[*ssa.Function]*Effect
 	srcFuncs []*ssa.Function
 
-	summaries   map[*ssa.Function]*RetSummary
-	summarizing map[*ssa.Function]bool
-	inlineBound int
-	lockFlows   map[*ssa.Function]*LockFlow
-	accesses    map[*ssa.Function][]Access
-	rootsAll    []Root
-	boundCache  map[*ssa.Function][]BoundObl
-	lenSums     map[string][2]int64
-	lenBusy     map[string]bool
-	intSums     map[string]*IntSum
-	lenEq       map[*ssa.Function][][2]int
+	summaries    map[*ssa.Function]*RetSummary
+	valueSums    map[*ssa.Function]*Term
+	codecBusy    map[*ssa.Function]bool
+	valueSumBusy map[*ssa.Function]bool
+	summarizing  map[*ssa.Function]bool
+	inlineBound  int
+	lockFlows    map[*ssa.Function]*LockFlow
+	accesses     map[*ssa.Function][]Access
+	rootsAll     []Root
+	boundCache   map[*ssa.Function][]BoundObl
+	lenSums      map[string][2]int64
+	lenBusy      map[string]bool
+	intSums      map[string]*IntSum
+	lenEq        map[*ssa.Function][][2]int
 
 	NumPackages int
 	NumFuncs    int
